@@ -368,9 +368,53 @@ def name_clash_cases(ctx):
                               f"{[names[1].lower(), 'other']}; got {ok if isinstance(ok, str) else sorted(ok)}", inp, key={"kind": "undefined-accepted"})
 
 
+def config_roundtrip_case(ctx):
+    """an evaluator with class groups (a plain, a merge and a single-instance group) saved and loaded: each group's result of the
+    loaded evaluator is that of the original — the groups keep their kind"""
+    import os, shutil
+    from common import VERIF
+    groups = [{"name": "vertebrae", "labels": [1, 2], "merge": False, "single": False}, {"name": "tumor", "labels": [3, 4], "merge": True, "single": False},
+              {"name": "cord", "labels": [5], "merge": False, "single": True}]
+    ref = np.zeros((6, 14), np.uint8)
+    ref[0:2, 0:3], ref[0:2, 5:8], ref[3:5, 0:2], ref[3:5, 2:4], ref[3:6, 9:12] = 1, 2, 3, 4, 5
+    pred = np.roll(ref, 1, axis=1)
+    pred[3:5, 1:3], pred[3:5, 3:5] = 4, 3          # the two tumour parts named the other way round
+    d = VERIF / ".work" / f"c12cfg_{os.getpid()}"
+    os.makedirs(d, exist_ok=True)
+    try:
+        for it in ("UNMATCHED", "SEMANTIC", "MATCHED"):
+            cfg = E.mk_cfg(it, ["IOU", "DSC"], matcher=E.naive("IOU", (1, 4)) if it != "MATCHED" else None)
+            inp = {"shape": [6, 14], "dtype": "uint8", "pred": gen.arr_json(pred), "ref": gen.arr_json(ref), "cfg": cfg, "groups": groups, "config_roundtrip": True}
+            ctx.case(inp, True)
+            ctx.count("grouped_evaluator_saved_and_loaded")
+            try:
+                with impl.quiet():
+                    ev = impl.mk_evaluator(cfg, groups=groups)
+                    ev.save_to_config(str(d / "ev.yaml"))
+                    back = impl.Panoptica_Evaluator.load_from_config(str(d / "ev.yaml"))
+                a = E.run_impl(cfg, pred, ref, groups=groups, evaluator=ev)
+                b = E.run_impl(cfg, pred, ref, groups=groups, evaluator=back)
+            except Exception as e:
+                ctx.violation(f"an evaluator with class groups could not be saved and loaded: {type(e).__name__}: {str(e)[:120]}", inp, key={"kind": "group-result"})
+                continue
+            if isinstance(a, str) or isinstance(b, str) or sorted(a) != sorted(b):
+                ctx.violation(f"the loaded evaluator evaluates other groups or raises: {a if isinstance(a, str) else sorted(a)} vs {b if isinstance(b, str) else sorted(b)}", inp,
+                              key={"kind": "group-result"})
+                continue
+            for g in a:
+                bad = [k for k in ("num_ref_instances", "num_pred_instances", "tp", "fp", "fn") if a[g][k] != b[g][k]]
+                if bad:
+                    ctx.violation(f"group {g!r}: after saving and loading the evaluator {bad[0]} is {b[g][bad[0]]} instead of {a[g][bad[0]]} (the group is no longer evaluated as defined)", inp,
+                                  key={"kind": "group-result"})
+                    break
+    finally:
+        shutil.rmtree(d, ignore_errors=True)
+
+
 def run(ctx):
     corpus(ctx)
     name_clash_cases(ctx)
+    config_roundtrip_case(ctx)
     rejection_form_cases(ctx, ctx.scale(60, 600))
     run_cases(ctx, ctx.scale(450, 4500), "rand")
 
@@ -380,6 +424,9 @@ def search(ctx):
 
 
 def replay(ctx, rec):
+    if rec["input"].get("config_roundtrip"):
+        config_roundtrip_case(ctx)
+        return
     if rec["input"].get("name_clash"):
         name_clash_cases(ctx)
         return
